@@ -44,6 +44,8 @@ impl LocalKey {
         use digest::Mac;
 
         let (ek, n2) = kdf::<U48>(&self.0, b"paseto-encryption-key", nonce).split();
+        #[cfg(paseto_rs_verif)]
+        let n2 = crate::verif_hooks::iv(n2);
         let ak: GenericArray<u8, U48> = kdf(&self.0, b"paseto-auth-key-for-aead", nonce);
 
         let cipher = ctr::Ctr64BE::<aes::Aes256>::new(&ek, &n2);
